@@ -326,6 +326,9 @@ def _pdiv(a, b):
     return a / b
 
 
+_ABS_OF: dict = {}
+
+
 class SymNum:
     """Symbolic number: real/int (``im is None``) or complex (re, im)."""
 
@@ -410,6 +413,9 @@ class SymNum:
         if p is None:
             return NotImplemented
         if self.im is None and p[1] is None:
+            if is_z3(self.re) and is_z3(p[0]) and self.re.get_id() == p[0].get_id() and self.re.get_id() in _ABS_OF:
+                x = _ABS_OF[self.re.get_id()][1]  # |x| * |x| == x * x for real x
+                return SymNum.wrap(_pmul(x, x))
             return SymNum.wrap(_pmul(self.re, p[0]))
         a, b = self.re, (self.im if self.im is not None else 0)
         c, d = p[0], (p[1] if p[1] is not None else 0)
@@ -475,7 +481,10 @@ class SymNum:
             return abs(SymNum.wrap(self.re))
         if self.im is not None:
             return sym_sqrt(SymNum.wrap(_padd(_pmul(self.re, self.re), _pmul(self.im, self.im))))
-        return ite(self >= 0, self, -self)
+        r = ite(self >= 0, self, -self)
+        if isinstance(r, SymNum) and is_z3(r.re) and r.im is None:
+            _ABS_OF[r.re.get_id()] = (r.re, self.re)  # keeps the term alive so the id stays unique
+        return r
 
     # -- comparisons ------------------------------------------------------------------
     def _cmp(self, o, op):
